@@ -327,7 +327,13 @@ func (e *Engine) freshNamed(st *State, nm string, t types.Type, depth int) Value
 		return Var(nm+".opaque", SInt)
 	}
 	if isStringLike(t) {
-		return Var(nm, SStr)
+		v := Var(nm, SStr)
+		if st != nil {
+			for _, inv := range e.typeInvTerms(v, t, nm, 0) {
+				st.Assume(inv)
+			}
+		}
+		return v
 	}
 	if isErrorType(t) {
 		return Var(nm, SInt)
@@ -445,13 +451,24 @@ func (e *Engine) typeInvTerms(v Value, t types.Type, nm string, depth int) []*Te
 		}
 	}
 	var out []*Term
+	if tv, isTerm := v.(*Term); isTerm {
+		if n, ok := t.(*types.Named); ok && n.Obj().Pkg() != nil {
+			if ti := e.cs.TypeInvs[n.Obj().Pkg().Path()+"."+n.Obj().Name()]; ti != nil {
+				if term := e.simpleSpec(ti.Expr, map[string]Value{ti.Param: tv}); term != nil {
+					e.trusted["type invariant of "+ti.Type+" assumed for values that enter the verified functions from outside: "+ti.Text] = true
+					return []*Term{term}
+				}
+			}
+		}
+		return nil
+	}
 	sv, ok := v.(*StructV)
 	if !ok {
 		return nil
 	}
 	if n, ok := t.(*types.Named); ok && n.Obj().Pkg() != nil {
 		if ti := e.cs.TypeInvs[n.Obj().Pkg().Path()+"."+n.Obj().Name()]; ti != nil {
-			if term := simpleSpec(ti.Expr, map[string]Value{ti.Param: sv}); term != nil {
+			if term := e.simpleSpec(ti.Expr, map[string]Value{ti.Param: sv}); term != nil {
 				out = append(out, term)
 				e.trusted["type invariant of "+ti.Type+" assumed for values that enter the verified functions from outside: "+ti.Text] = true
 			}
@@ -470,7 +487,7 @@ func (e *Engine) typeInvTerms(v Value, t types.Type, nm string, depth int) []*Te
 
 // simpleSpec evaluates the small expression language of type invariants (field selection on the parameter, len of
 // strings, comparisons, && || !, + -, literals) without a function context. nil if the expression is outside it.
-func simpleSpec(x ast.Expr, env map[string]Value) (res *Term) {
+func (e *Engine) simpleSpec(x ast.Expr, env map[string]Value) (res *Term) {
 	defer func() {
 		if recover() != nil {
 			res = nil
@@ -505,6 +522,9 @@ func simpleSpec(x ast.Expr, env map[string]Value) (res *Term) {
 		case *ast.CallExpr:
 			if id, ok := y.Fun.(*ast.Ident); ok && len(y.Args) == 1 && id.Name == "len" {
 				return StrLen(val(y.Args[0]).(*Term))
+			}
+			if id, ok := y.Fun.(*ast.Ident); ok && len(y.Args) == 2 && id.Name == "inL" {
+				return e.inL(val(y.Args[0]).(*Term), y.Args[1].(*ast.Ident).Name)
 			}
 			if id, ok := y.Fun.(*ast.Ident); ok && len(y.Args) == 2 && id.Name == "implies" {
 				return Implies(val(y.Args[0]).(*Term), val(y.Args[1]).(*Term))
